@@ -266,6 +266,8 @@ pub enum EventKind {
     Error { code: i32, row: u32, col: u32, dispatch: u8, target: usize },
     Screen { call: &'static str, a: i64, b: i64 },
     Env { set: bool, name: String },
+    /// crash point of the fault plan
+    Killed,
 }
 
 #[derive(Clone, Debug, PartialEq, Eq)]
@@ -306,6 +308,11 @@ pub struct World {
     /// quota: total bytes the file system accepts in this run (None = unlimited)
     pub fs_quota: Option<usize>,
     pub fs_written: usize,
+    /// crash point: the run is stopped when this many instructions have been executed
+    pub kill_at: Option<u64>,
+    pub killed: bool,
+    pub fs_at_kill: Option<FsStore>,
+    pub writes_after_kill_discarded: bool,
 
     // ---- log ----
     pub log: Vec<Event>,
@@ -348,6 +355,10 @@ impl World {
             stmt_counts: HashMap::new(),
             fs_quota: None,
             fs_written: 0,
+            kill_at: None,
+            killed: false,
+            fs_at_kill: None,
+            writes_after_kill_discarded: false,
             log: vec![],
             log_enabled: true,
             io_calls: 0,
